@@ -1560,6 +1560,16 @@ impl Vm {
 
     #[inline(always)]
     fn call_native(&mut self, native: Gc<ObjNative>, arg_count: usize) -> Result<(), Error> {
+        if !native.accepts_instances {
+            if let Value::ObjInstance(_) = self.peek(arg_count) {
+                let err = error!(
+                    ErrorKind::TypeError,
+                    "Built-in method '{}' cannot be used on an instance of a class declared in a program.",
+                    *native.name
+                );
+                return self.try_handle_error(err);
+            }
+        }
         self.active_fiber_mut().set_native_arity(arg_count);
         let function = native.function;
         let result = function(self, arg_count);
